@@ -32,6 +32,42 @@ static Verdict run_c05(const Case &c)
       labels.push_back("T:" + std::to_string(n));
     }
   }
+  else if (kind == "tagforge")
+  {
+    // forgeries against weak tag comparisons: a constant / truncated / prefix-only tag combined with many
+    // different bodies (a comparison that stops early or skips bytes accepts one of them with probability
+    // ~2^-8 per body instead of 2^-8*hlen)
+    size_t bodylen = base.size() - body;
+    for (int variant = 0; variant < 4; variant++)
+      for (size_t j = 0; j < 160; j++)
+      {
+        bytes f = base;
+        size_t off = body + (j * 7919u) % bodylen;
+        f[off] ^= (uint8_t)(1 + (j * 37u) % 255);
+        std::string lab = "X:" + std::to_string(off) + ":" + std::to_string(1 + (j * 37u) % 255);
+        if (variant == 0)
+        {
+          memset(f.data() + 10, 0, hl);
+          lab += ";S:10:" + std::string(2 * hl, '0');
+        }
+        else if (variant == 1)
+        {
+          memset(f.data() + 10, 0xff, hl);
+          lab += ";S:10:" + hex(bytes(hl, 0xff));
+        }
+        else if (variant == 2)
+        {
+          // keep the old tag (right for the old body): accepted only if the comparison ignores most bytes
+        }
+        else
+        {
+          memset(f.data() + 10 + 1, 0, hl - 1);
+          lab += ";S:11:" + std::string(2 * (hl - 1), '0');
+        }
+        files.push_back(f);
+        labels.push_back(lab);
+      }
+  }
   else if (kind == "hdr")
   {
     for (int off : {8, 9})
@@ -151,6 +187,11 @@ static Case gen_c05()
     c.set("kind", "hdr");
     return c;
   }
+  if (k < 17)
+  {
+    c.set("kind", "tagforge");
+    return c;
+  }
   c.set("kind", "edits");
   std::vector<long> marks = {0, 8, 9, 10, 10 + hl, 48, 48 + 20, (long)body, (long)flen - 16, (long)flen};
   std::string s;
@@ -227,7 +268,7 @@ static void fixed_c05(Ctx &ctx)
   // exhaustive single-bit flips, truncations and mode-byte sweeps of one small file per (cmode, hmode)
   for (int cm = 0; cm < 5; cm++)
     for (int hm = 0; hm < 3; hm++)
-      for (const char *kind : {"bitflips", "truncs", "hdr"})
+      for (const char *kind : {"bitflips", "truncs", "hdr", "tagforge"})
       {
         if (!mine(ctx, i++))
           continue;
